@@ -34,6 +34,11 @@ def run(chk, tier, scale=1.0):
         plan = [("int", 10), ("int", 100), ("int", 1000), ("int", 10000), ("intx", 14), ("intx", 28), ("intx", 200),
                 ("intx", 3000), ("charp", 12), ("charp", 500), ("charp", 10000), ("voidp", 16), ("voidp", 2000),
                 ("voidp", 10000), ("int", 37), ("charp", 64)]
+    # deep trees: keys inserted in key order (one chain as deep as the set), then operations at its far end
+    for cmp_ in ("int", "charp", "voidp"):
+        for n_ in ([1500, 6000] if tier == "quick" else [1500, 6000, 20000, 60000]):
+            for desc in (0, 1):
+                jobs.append((exe, ["fill", cmp_, str(n_), str(desc)], 3600))
     for i, (cmp_, uni) in enumerate(plan):
         jobs.append((exe, ["random", cmp_, str(seed * 1000 + i), str(uni), str(nops)], 3600))
     res = vcommon.pmap(_job, jobs)
@@ -62,7 +67,7 @@ def run(chk, tier, scale=1.0):
         viols = re.findall(r"^VIOL (\S+) (.*)$", so, re.M)
         paths = re.findall(r"^PATH(.*)$", so, re.M)
         for k, (rule, detail) in enumerate(viols[:5]):
-            part = argv[0] + (":" + argv[1] if argv[0] == "random" else "")
+            part = argv[0] + (":" + argv[1] if argv[0] in ("random", "fill") else "")
             sig = "%s:%s" % (rule, part if argv[0] != "shapes" else "shapes")
             chk.violation(Violation("C19", rule, sig, "%s: %s%s" % (case, detail, ("\npath:" + paths[k]) if k < len(paths) else ""),
                                     {"argv": argv, "detail": detail, "path": paths[k] if k < len(paths) else None}))
@@ -80,7 +85,7 @@ def run(chk, tier, scale=1.0):
     chk.rule = ("complete breadth-first exploration of reachable splay-tree shapes for universes of 1..7 keys "
                 "(every insert/replace/remove/find/lower/clear from every shape, present keys and gap probes), "
                 "long random sequences per stock comparator (int, int with extreme values, case-insensitive strings, "
-                "pointers) and comparator laws; a case is one harness run, non-trivial when it executed >=1 set operation; "
+                "pointers), sets of 1500-60000 keys filled in key order (one chain as deep as the set) and then operated on at the far end, and comparator laws; a case is one harness run, non-trivial when it executed >=1 set operation; "
                 "after every operation: result vs sorted-array model, structural audit, cleanup accounting; ASan+UBSan+LSan")
     chk.exhaustive = False
     chk.extra["exhaustive_subspace"] = "all tree shapes reachable over <=7 keys: %d shapes" % shapes_total
